@@ -94,6 +94,13 @@ Theorem enforced_rejects_non_integers : forall v t ver,
   enforces ver = true -> RendersText v t -> has_unsafe_number v = true -> enforced ver t = None.
 Proof. exact C01Proofs.enforced_rejects. Qed.
 
+(* and accept (with the plain canonical form) every text all of whose numbers are integer literals
+   within the range other than the literal -0 *)
+Theorem enforced_accepts_safe_integers : forall v t ver,
+  enforces ver = true -> RendersText v t -> has_bad_number v = false ->
+  enforced ver t = Some (canon_print v).
+Proof. exact C01Proofs.enforced_accepts. Qed.
+
 Theorem enforced_otherwise_canonical : forall ver t c, enforced ver t = Some c -> canonical t = Some c.
 Proof. exact C01Proofs.enforced_otherwise_canonical. Qed.
 
@@ -193,6 +200,7 @@ Print Assumptions canonical_is_canonical_form.
 Print Assumptions canon_print_injective.
 Print Assumptions canon_print_respects.
 Print Assumptions enforced_rejects_non_integers.
+Print Assumptions enforced_accepts_safe_integers.
 Print Assumptions enforced_otherwise_canonical.
 Print Assumptions enforced_versions_are_v6_plus.
 Print Assumptions enforcing_versions_all_registered.
